@@ -73,8 +73,11 @@ func runSubC17(seed uint64, items int, place, depth, size string) (*c17Result, e
 		env = append(env, "FRUGAL_MAX_INLINE_IL_SIZE="+size)
 	}
 	outB, errB, err, hung := runSub(fmt.Sprintf("c17|%d|%d|%s", seed, items, place), env, 10*time.Minute)
+	if hung && subStalled(errB) {
+		return nil, fmt.Errorf("child blocked (no CPU time consumed for 150 s): %s", clipStr(string(errB), 2500))
+	}
 	if hung {
-		return nil, fmt.Errorf("child exceeded the 10 min wall-clock limit")
+		return nil, errC17Slow
 	}
 	out := bytes.NewBuffer(outB)
 	if err != nil {
@@ -90,6 +93,9 @@ func runSubC17(seed uint64, items int, place, depth, size string) (*c17Result, e
 	}
 	return &r, nil
 }
+
+// errC17Slow: the child was still computing at the wall-clock limit; not a verdict.
+var errC17Slow = fmt.Errorf("child exceeded the 10 min wall-clock limit while still running")
 
 var (
 	c17DefaultOnce sync.Once
@@ -121,11 +127,19 @@ func runC17(c *harness.Ctx, idx int) {
 	if round != 0 {
 		def, derr = runSubC17(seed, items, "none", "", "")
 	}
+	if derr == errC17Slow {
+		c.Inconclusive("child with the default configuration: %v", derr)
+		return
+	}
 	if derr != nil {
 		c.Violation("default-died", "C17/default-config-died", "child with the default configuration failed: %v", derr)
 		return
 	}
 	res, err := runSubC17(seed, items, place, depth, size)
+	if err == errC17Slow {
+		c.Inconclusive("child under depth=%q size=%q placement=%s: %v", depth, size, place, err)
+		return
+	}
 	if err != nil {
 		c.Violation("child-died", "C17/child-died/"+place, "child failed under depth=%q size=%q placement=%s: %v", depth, size, place, err)
 		return
@@ -283,6 +297,38 @@ func RunSubC17(spec string) {
 			fEncode(make([]byte, len(ref.Encode(s, v2.Elem()))+16), v2.Elem().Interface())
 			if !bytes.Equal(before, ref.Canon(s, v1.Elem(), ref.CmpOpts{})) {
 				note("an object passed to Pretouch was modified by later by-value calls on another value of type %s", s.Name)
+			}
+		}
+	}
+	// types whose very first use was through a by-value argument, then Pretouch with a
+	// pointer (and with the type), then ordinary pointer calls and the first use of another
+	// fresh type: every call returns, with the reference result
+	if place != "none" {
+		for k := 0; k < 3; k++ {
+			tcf := gen.DefaultTypeCfg()
+			tcf.BigIDs = false
+			s := gen.RandomStruct(lr, tcf, 0)
+			v := gen.NewValue(lr, s, gen.DefaultValCfg())
+			want := ref.Encode(s, v.Elem())
+			if sz := fSize(v.Elem().Interface()); sz.panicked() || sz.n != len(want) {
+				note("fresh type first used by value: EncodedSize=%d panic=%v, reference %d", sz.n, sz.pv, len(want))
+			}
+			res.LegacyCalls++
+			if err := frugal.Pretouch(v.Interface()); err != nil {
+				res.PretouchErr++
+			}
+			if err := frugal.Pretouch(s.Go, frugal.WithMaxPretouchDepth(2)); err != nil {
+				res.PretouchErr++
+			}
+			if sz := fSize(v.Interface()); sz.panicked() || sz.n != len(want) {
+				note("after Pretouch of a type first used by value: EncodedSize(ptr)=%d panic=%v, reference %d", sz.n, sz.pv, len(want))
+			}
+			s2 := gen.RandomStruct(lr, tcf, 0)
+			v2 := gen.NewValue(lr, s2, gen.DefaultValCfg())
+			want2 := ref.Encode(s2, v2.Elem())
+			buf := make([]byte, len(want2)+8)
+			if er := fEncode(buf, v2.Interface()); er.panicked() || er.err != nil || !sameUpToMapOrder(buf[:er.n], want2) {
+				note("first use of another fresh type after Pretouch: err=%v panic=%v", er.err, er.pv)
 			}
 		}
 	}
